@@ -32,7 +32,11 @@ extern "C" void k_flag()
   {
     int r = ks->_nbgh[i];
     bool sample_ok = true;
+#ifdef VF_MUT // self-test only (never defined by the registry): a deliberately wrong oracle must be refuted
+    for (int d = 1; d < VF_NDIM; d++)
+#else
     for (int d = 0; d < VF_NDIM; d++)
+#endif
       if (undef(T_coord[r][d])) sample_ok = false;
     for (int ib = 0; ib < VF_NFEX; ib++)
       if (undef(T_fext[r][ib])) sample_ok = false;
@@ -124,7 +128,9 @@ extern "C" void k_lhs()
           int b = j + jv * VF_NECH;
           int rj = ks->_nbgh[j];
           double ref = T_cov[ri][rj][iv][jv];
+#ifndef VF_MUT // self-test only: oracle without the measurement error term must be refuted
           if (a == b && ks->_flagVerr && !undef(T_verr[ri][iv]) && T_verr[ri][iv] > 0) ref += T_verr[ri][iv];
+#endif
           vf_assert_id(ks->_lhsf.getValue(a, b, false) == ref,
                        "LHSF[IND(i,iv),IND(j,jv)] == cov(i,j,iv,jv) (+ measurement error variance on the diagonal when defined and > 0)");
           vf_assert_id(ks->_getLHSF(i, iv, j, jv) == ref, "_getLHSF(i,iv,j,jv) reads LHSF[IND(i,iv),IND(j,jv)]");
@@ -206,7 +212,11 @@ extern "C" void k_iso()
         pb++;
       }
       for (int jv = 0; jv < VF_NVAR; jv++)
+#ifdef VF_MUT // self-test only: rows taken without compression must be refuted
+        vf_assert_id(ks->_rhsc.getValue(a, jv, false) == rf[a][jv], "RHSC = rows of RHSF with flag != 0, in order");
+#else
         vf_assert_id(ks->_rhsc.getValue(pa, jv, false) == rf[a][jv], "RHSC = rows of RHSF with flag != 0, in order");
+#endif
       pa++;
     }
     for (int a = 0; a < VF_NEQ; a++)
@@ -238,7 +248,11 @@ extern "C" void k_rhs()
   for (int i = 0; i < VF_NECH; i++)
     for (int iv = 0; iv < VF_NVAR; iv++)
       for (int jv = 0; jv < VF_NVAR; jv++)
+#ifdef VF_MUT // self-test only: covariance taken at the data base rank i instead of the neighbourhood rank must be refuted
+        vf_assert_id(ks->_rhsf.getValue(i + iv * VF_NECH, jv, false) == T_covt[i][iv][jv],
+#else
         vf_assert_id(ks->_rhsf.getValue(i + iv * VF_NECH, jv, false) == T_covt[ks->_nbgh[i]][iv][jv],
+#endif
                      "RHSF[IND(i,iv), jv] == cov(sample i variable iv, target variable jv)");
   bool drift_undef = false;
   for (int iv = 0; iv < VF_NVAR; iv++)
